@@ -92,6 +92,22 @@ def main():
             r = json.loads(Path(rp[0]).read_text())
             meta['replay_signature'] = r.get('signature') or r.get('no_longer_checks')
             meta['replay_what'] = (r.get('what') or '')[:300]
+        if not harmless and not meta['caught'] and '--no-others' not in sys.argv:
+            # missed by the property's own check: do the checks of the other properties anchored in the touched files see it?
+            touched = [l[6:].strip() for l in (src / 'patch.diff').read_text().splitlines() if l.startswith('+++ b/')]
+            others = {}
+            for l in (VERIF / 'properties.jsonl').read_text().splitlines():
+                q = json.loads(l)
+                if q['id'] != prop and any(f in touched for f in q['anchors']['files']):
+                    rc, out = sh(f'./check {q["id"]} --tier quick', cwd=VERIF, env=cenv, timeout=3000)
+                    ls = [x for x in out.splitlines() if 'VIOLATION' in x]
+                    others[q['id']] = {'rc': rc, 'violation': ls[-1:] }
+                    rp = [x.split('replay=')[1].split()[0] for x in ls if 'replay=' in x]
+                    if rp and Path(rp[0]).exists():
+                        r = json.loads(Path(rp[0]).read_text())
+                        others[q['id']]['signature'] = r.get('signature') or r.get('no_longer_checks')
+            meta['other_checks'] = others
+            meta['caught_by_other'] = [k for k, v in others.items() if v['rc'] == 1 and v['violation']]
     finally:
         sh(f'git -C /repo worktree remove --force {wt}')
         sh(f'rm -rf {lean}')
